@@ -172,10 +172,12 @@ def part_timer(facts, res, fields, fi):
     body = facts.bodies[key]
     g = cfgmod.Cfg(body)
     loops = g.loops()
-    if len(loops) != 1:
-        res.errors.append("update_timer8_0: expected exactly one loop, found %d" % len(loops))
+    # the tick loop: the outermost loop (inner loops over small constant tables are unrolled by the interpreter)
+    outer = [h_ for h_ in loops if all(o_ == h_ or o_ in loops[h_] for o_ in loops)]
+    if len(outer) != 1:
+        res.errors.append("update_timer8_0: the tick loop is not identified (%d loops, %d outermost)" % (len(loops), len(outer)))
         return
-    header = list(loops)[0]
+    header = outer[0]
     names = {l["n"]: i for i, l in enumerate(body["locals"]) if l["n"]}
     # the tick counter, by role: a Range iterator advanced by next() in the loop (for _ in 0..ticks), or else the integer local
     # that the loop decrements and tests (while count != 0)
@@ -417,6 +419,7 @@ def part_timer(facts, res, fields, fi):
                 if d != 0:
                     res.finding("tick|tcsr", "TCSR after a tick is not TCSR | CMFA/CMFB/OVF on match / overflow (flags must be sticky and exact)", witness(d))
                 irqs = [e[1] for e in st.eff if e[0] == "irq"]
+                OBSERVED_VECTORS.update(irqs)
                 for vec, ev, en, what in ((36, ma, ena["a"], "CMIA"), (37, mb, ena["b"], "CMIB"), (39, ovf, ena["o"], "OVI")):
                     n = irqs.count(vec)
                     want = Mx.AND(ev, en)
@@ -438,8 +441,12 @@ def part_timer(facts, res, fields, fi):
             res.distinct += 1
 
 
+OBSERVED_VECTORS = set()     # vector numbers requested in the analysed ticks (None = not a constant); read by rules/c10
+
+
 def run(ctx, res):
     facts = ctx["facts"]
+    OBSERVED_VECTORS.clear()
     res.explanation = __doc__.split("\n\n", 1)[1].replace("\n", " ")
     res.rule = "abstract interpretation of update_tcr, of update_timer8_0 up to the tick loop, and of one generalised tick, against the per-tick reference; field value sets from the who-writes-field rule"
     res.trusted = ["rustc MIR", "h8facts", "interp.py/models.py", "bdd.py", "tick reference in rules/c17.py (hardware manual, 8-bit timer)"]
